@@ -150,6 +150,87 @@ type c07Case struct {
 	Blank   string
 	Cap     int
 	WithVal bool
+	NilMask uint8 `json:",omitempty"` // with WithVal: a caller-written PHBodies whose getters (bit order From, To, Call-ID, CSeq, CLen, Contacts, Expires, PAIs) return nil
+}
+
+// maskedBodies is a caller-written PHBodies: it declines (returns nil for) the bodies selected by nilMask, which
+// the interface allows; declined headers are then tokenised like generic ones.
+type maskedBodies struct {
+	pv      *sipsp.PHdrVals
+	nilMask uint8
+}
+
+func (m *maskedBodies) GetFrom() *sipsp.PFromBody {
+	if m.nilMask&1 != 0 {
+		return nil
+	}
+	return m.pv.GetFrom()
+}
+func (m *maskedBodies) GetTo() *sipsp.PFromBody {
+	if m.nilMask&2 != 0 {
+		return nil
+	}
+	return m.pv.GetTo()
+}
+func (m *maskedBodies) GetCallID() *sipsp.PCallIDBody {
+	if m.nilMask&4 != 0 {
+		return nil
+	}
+	return m.pv.GetCallID()
+}
+func (m *maskedBodies) GetCSeq() *sipsp.PCSeqBody {
+	if m.nilMask&8 != 0 {
+		return nil
+	}
+	return m.pv.GetCSeq()
+}
+func (m *maskedBodies) GetCLen() *sipsp.PUIntBody {
+	if m.nilMask&16 != 0 {
+		return nil
+	}
+	return m.pv.GetCLen()
+}
+func (m *maskedBodies) GetContacts() *sipsp.PContacts {
+	if m.nilMask&32 != 0 {
+		return nil
+	}
+	return m.pv.GetContacts()
+}
+func (m *maskedBodies) GetExpires() *sipsp.PUIntBody {
+	if m.nilMask&64 != 0 {
+		return nil
+	}
+	return m.pv.GetExpires()
+}
+func (m *maskedBodies) GetPAIs() *sipsp.PPAIs {
+	if m.nilMask&128 != 0 {
+		return nil
+	}
+	return m.pv.GetPAIs()
+}
+func (m *maskedBodies) Reset() { m.pv.Reset() }
+
+// nilBitOf: the getter bit of a header type (0 for types without a value sub-parser).
+func nilBitOf(t sipsp.HdrT) uint8 {
+	switch t {
+	case sipsp.HdrFrom:
+		return 1
+	case sipsp.HdrTo:
+		return 2
+	case sipsp.HdrCallID:
+		return 4
+	case sipsp.HdrCSeq:
+		return 8
+	case sipsp.HdrCLen:
+		return 16
+	case sipsp.HdrContact:
+		return 32
+	case sipsp.HdrExpires:
+		return 64
+	case sipsp.HdrPAI:
+		return 128
+	}
+	return 0
 }
 
 func evalC07(cs *c07Case) (vs []*Violation) {
@@ -178,7 +259,9 @@ func evalC07(cs *c07Case) (vs []*Violation) {
 	var pv sipsp.PHdrVals
 	var n int
 	var e sipsp.ErrorHdr
-	if cs.WithVal {
+	if cs.WithVal && cs.NilMask != 0 {
+		n, e = sipsp.ParseHeaders(buf, 0, &hl, &maskedBodies{&pv, cs.NilMask})
+	} else if cs.WithVal {
 		n, e = sipsp.ParseHeaders(buf, 0, &hl, &pv)
 	} else {
 		n, e = sipsp.ParseHeaders(buf, 0, &hl, nil)
@@ -327,6 +410,11 @@ func checkC07(r *Run) {
 				if isGeneric[a.l.Name] {
 					runCase(c, &c07Case{Lines: []hdrLineSpec{a.l}, VF: []valForm{a.vf}, Blank: b, Cap: cp, WithVal: true})
 				}
+				// a caller-written PHBodies that declines every body, or exactly the one of this header's type
+				runCase(c, &c07Case{Lines: []hdrLineSpec{a.l}, VF: []valForm{a.vf}, Blank: b, Cap: cp, WithVal: true, NilMask: 0xff})
+				if bit := nilBitOf(sipsp.GetHdrType([]byte(a.l.Name))); bit != 0 {
+					runCase(c, &c07Case{Lines: []hdrLineSpec{a.l}, VF: []valForm{a.vf}, Blank: b, Cap: cp, WithVal: true, NilMask: bit})
+				}
 			}
 		}
 		// 2-line blocks: full x reduced (both orders)
@@ -344,6 +432,13 @@ func checkC07(r *Run) {
 					cp := caps(2)[(i+j)%6]
 					runCase(c, &c07Case{Lines: []hdrLineSpec{pair[0].l, pair[1].l}, VF: []valForm{pair[0].vf, pair[1].vf}, Blank: b, Cap: cp,
 						WithVal: isGeneric[pair[0].l.Name] && isGeneric[pair[1].l.Name] && j%2 == 0})
+					if (i+j)%2 == 0 {
+						mask := uint8(0xff)
+						if b1, b2 := nilBitOf(sipsp.GetHdrType([]byte(pair[0].l.Name))), nilBitOf(sipsp.GetHdrType([]byte(pair[1].l.Name))); (i+j)%4 == 0 && b1|b2 != 0 {
+							mask = b1 | b2
+						}
+						runCase(c, &c07Case{Lines: []hdrLineSpec{pair[0].l, pair[1].l}, VF: []valForm{pair[0].vf, pair[1].vf}, Blank: b, Cap: cp, WithVal: true, NilMask: mask})
+					}
 				}
 			}
 		}
